@@ -36,7 +36,9 @@ func checkC24(r *core.Run, p *core.Program) {
 	r.Rule("C24.range", "array element parsers pass the array's element bit size to strconv (so an element that does not fit is rejected), assemble the element with the width of the same switch case, and for float elements every width has its own overflow (IsInf) and underflow (== 0 but the text is not zero) rejection computed at that width - no rejection is computed at a narrower width than the case it guards.")
 	r.Rule("C24.specials", "inf / -inf / nan / snan array elements append, for each element width, the IEEE-754 bit pattern of that value at that width (checked by value: sign, all-ones exponent, fraction zero for infinities, quiet bit set/clear with non-zero fraction for NaNs).")
 	r.Rule("C24.escapes", "the string escape decoder handles exactly the characters the lexer's ESCAPE_CHAR token admits and maps each to the code point the specification assigns; every short escape the encoder writes is decoded back to the character it was written for; \\[hex] escapes are parsed in base 16 with room for U+10FFFF and any range guard accepts U+10FFFF itself.")
+	r.Rule("C24.exact-float", "the listener for a float value token never takes a silently rounding route: nothing reachable from ExitValueFloat calls strconv.ParseFloat / fmt.Sscan*, and every float64 it reports through OnFloat is the result of (*big.Float).Float64() inside a branch whose condition requires the accuracy to be big.Exact.")
 	r.NotDecide("arithmetic exactness of strconv / math/big / compact-float / apd; precision chosen for long hexadecimal floats; date and time field parsing")
+	checkC24ExactFloat(r, p)
 
 	g, err := LoadLexerGrammar(p.RepoDir)
 	if err != nil {
@@ -283,16 +285,47 @@ func checkC24(r *core.Run, p *core.Program) {
 	}
 	_ = a
 	// stripPos: earliest position in f where separators are stripped (directly or through a helper that strips)
-	stripPos := func(f *fn) token.Pos {
-		best := token.NoPos
-		inspectCalls(info, f.Decl.Body, func(call *ast.CallExpr, c *types.Func) {
-			if isStripCall(call, c) || (c != nil && stripsDirect[c]) {
-				if best == token.NoPos || call.Pos() < best {
-					best = call.Pos()
+	// stripBefore: separators are stripped in f (directly or through a helper that strips) before target, by a call
+	// that is executed on every path to target (not inside a branch, case or loop body that target is outside of)
+	stripBefore := func(f *fn, target ast.Node) bool {
+		found := false
+		var stack []ast.Node
+		ast.Inspect(f.Decl.Body, func(n ast.Node) bool {
+			if n == nil {
+				stack = stack[:len(stack)-1]
+				return true
+			}
+			stack = append(stack, n)
+			call, ok := n.(*ast.CallExpr)
+			if !ok || call.Pos() >= target.Pos() {
+				return true
+			}
+			c := callee(info, call)
+			if !(isStripCall(call, c) || (c != nil && stripsDirect[c])) {
+				return true
+			}
+			uncond := true
+			for i := 1; i < len(stack); i++ {
+				var region ast.Node
+				switch x := stack[i].(type) {
+				case *ast.BlockStmt:
+					switch stack[i-1].(type) {
+					case *ast.IfStmt, *ast.ForStmt, *ast.RangeStmt, *ast.FuncLit:
+						region = x
+					}
+				case *ast.CaseClause, *ast.CommClause:
+					region = x
+				}
+				if region != nil && !(region.Pos() <= target.Pos() && target.End() <= region.End()) {
+					uncond = false
 				}
 			}
+			if uncond {
+				found = true
+			}
+			return true
 		})
-		return best
+		return found
 	}
 
 	nBase, nSep := 0, 0
@@ -390,20 +423,17 @@ func checkC24(r *core.Run, p *core.Program) {
 		}
 		if len(st) > 0 {
 			nSep++
-			ok := false
-			if sp := stripPos(f); sp != token.NoPos && sp < np.Call.Pos() {
-				ok = true
-			}
+			ok := stripBefore(f, np.Call)
 			if !ok && len(sites[f.Obj]) > 0 {
 				// every caller strips before calling f
 				all := true
 				for _, s := range sites[f.Obj] {
 					cf := funcs[s.caller]
-					if sp := stripPos(cf); sp == token.NoPos || sp > s.call.Pos() {
+					if !stripBefore(cf, s.call) {
 						// the caller may itself be a helper whose callers strip: one more level
 						all2 := len(sites[s.caller]) > 0
 						for _, s2 := range sites[s.caller] {
-							if sp2 := stripPos(funcs[s2.caller]); sp2 == token.NoPos || sp2 > s2.call.Pos() {
+							if !stripBefore(funcs[s2.caller], s2.call) {
 								all2 = false
 							}
 						}
@@ -862,4 +892,126 @@ func safeIdx(s string, i int) byte {
 		return s[i]
 	}
 	return 0
+}
+
+func checkC24ExactFloat(r *core.Run, p *core.Program) {
+	f := findFn(p, "cte", "cteListener.ExitValueFloat")
+	if f == nil {
+		r.Undecided("C24.exact-float", "cte.cteListener.ExitValueFloat")
+		return
+	}
+	info := f.Pkg.TypesInfo
+	// (a) no rounding parser reachable
+	seen := map[*types.Func]bool{f.Obj: true}
+	var visit func(d *ast.FuncDecl, depth int)
+	lossy := ""
+	var lossyPos token.Pos
+	visit = func(d *ast.FuncDecl, depth int) {
+		inspectCalls(info, d.Body, func(call *ast.CallExpr, cal *types.Func) {
+			if cal == nil {
+				return
+			}
+			if isFunc(cal, "strconv", "ParseFloat") || (cal.Pkg() != nil && cal.Pkg().Path() == "fmt" && strings.HasPrefix(cal.Name(), "Sscan")) {
+				lossy, lossyPos = cal.Pkg().Name()+"."+cal.Name()+" in "+d.Name.Name, call.Pos()
+				return
+			}
+			if depth < 3 && cal.Pkg() == f.Pkg.Types && !seen[cal] {
+				seen[cal] = true
+				if hd := p.FuncDecl(cal); hd != nil && hd.Body != nil {
+					visit(hd, depth+1)
+				}
+			}
+		})
+	}
+	visit(f.Decl, 0)
+	r.Check("C24.exact-float", "cte.cteListener.ExitValueFloat|no rounding parser", posOr(lossyPos, f.Decl.Pos()), lossy == "",
+		"a float value token reaches "+lossy+", which rounds to the nearest float64 without saying so: the decoded value differs from the literal")
+	// (b) OnFloat arguments
+	n := 0
+	var stack []ast.Node
+	ast.Inspect(f.Decl.Body, func(nd ast.Node) bool {
+		if nd == nil {
+			stack = stack[:len(stack)-1]
+			return true
+		}
+		stack = append(stack, nd)
+		call, ok := nd.(*ast.CallExpr)
+		if !ok {
+			return true
+		}
+		cal := callee(info, call)
+		if cal == nil || cal.Name() != "OnFloat" || len(call.Args) != 1 {
+			return true
+		}
+		n++
+		// root variable of the argument
+		var root types.Object
+		ast.Inspect(call.Args[0], func(k ast.Node) bool {
+			if id, ok := k.(*ast.Ident); ok {
+				if v, isVar := info.ObjectOf(id).(*types.Var); isVar && root == nil {
+					if b, isB := v.Type().Underlying().(*types.Basic); isB && b.Kind() == types.Float64 {
+						if init := definingCall(info, f, v); init != nil {
+							if ic := callee(info, init); ic != nil && ic.Name() == "Float64" && recvNamed(ic) != nil && recvNamed(ic).Obj().Name() == "Float" {
+								root = v
+							}
+						}
+					}
+				}
+			}
+			return true
+		})
+		exact := false
+		for i := len(stack) - 2; i >= 0; i-- {
+			if ifs, ok := stack[i].(*ast.IfStmt); ok && stack[i+1] == ast.Node(ifs.Body) {
+				ast.Inspect(ifs.Cond, func(k ast.Node) bool {
+					if be, ok := k.(*ast.BinaryExpr); ok && be.Op == token.EQL {
+						for _, side := range []ast.Expr{be.X, be.Y} {
+							if c, ok := objOf(info, side).(*types.Const); ok && c.Name() == "Exact" && c.Pkg().Path() == "math/big" {
+								exact = true
+							}
+						}
+					}
+					return true
+				})
+			}
+		}
+		r.Check("C24.exact-float", "cte.cteListener.ExitValueFloat|OnFloat is exact", call.Pos(), root != nil && exact,
+			"the float64 reported for a float literal is not the result of (*big.Float).Float64() checked to be big.Exact: a literal that float64 cannot hold is reported rounded instead of as a big float")
+		return true
+	})
+	r.Floor("C24.exact-float", "OnFloat reports in ExitValueFloat", n, 1)
+}
+
+func posOr(a, b token.Pos) token.Pos {
+	if a.IsValid() {
+		return a
+	}
+	return b
+}
+
+// definingCall returns the call whose (multi-value) result defines v, when v is defined exactly once that way.
+func definingCall(info *types.Info, f *fn, v types.Object) *ast.CallExpr {
+	var out *ast.CallExpr
+	n := 0
+	ast.Inspect(f.Decl.Body, func(nd ast.Node) bool {
+		as, ok := nd.(*ast.AssignStmt)
+		if !ok {
+			return true
+		}
+		for _, l := range as.Lhs {
+			if objOf(info, l) == v {
+				n++
+				if len(as.Rhs) == 1 {
+					if c, ok := stripParens(as.Rhs[0]).(*ast.CallExpr); ok {
+						out = c
+					}
+				}
+			}
+		}
+		return true
+	})
+	if n == 1 {
+		return out
+	}
+	return nil
 }
